@@ -14,18 +14,23 @@ import sys
 import tempfile
 from enum import Enum
 from pathlib import Path
-from typing import Dict, List, Optional
+from typing import Annotated, Dict, List, Optional, Union
 
 logging.disable(logging.CRITICAL)
 
 from experimaestro import Config, Param, experiment  # noqa: E402
 from experimaestro.core import types as xtypes  # noqa: E402
+from experimaestro.core.arguments import field  # noqa: E402
+from experimaestro.core.context import SerializationContext  # noqa: E402
+from experimaestro.core.serialization import from_state_dict, state_dict  # noqa: E402
+from experimaestro.checkers import Choices  # noqa: E402
+from experimaestro.xpmutils import DirectoryContext  # noqa: E402
 from experimaestro.core.objects import ConfigWalkContext  # noqa: E402
 from experimaestro.scheduler.base import Job, JobState  # noqa: E402
 from experimaestro.scheduler.workspace import RunMode  # noqa: E402
 
 import vpk_c15.dyn as dyn  # noqa: E402
-from vpk_c15.lib import CLASSES, ENUMS  # noqa: E402
+from vpk_c15.lib import CLASSES, ENUMS, NonEmpty  # noqa: E402
 
 
 class FakeJob(Job):
@@ -70,9 +75,17 @@ def type_ast(t):
     return {"k": "other", "repr": type(t).__name__}
 
 
+def is_optional(a):
+    """None is a value of the parameter: it was declared Optional[...] (Argument.optional once the library records
+    it; before that: not required although it has neither a default nor a generator)"""
+    if hasattr(a, "optional"):
+        return bool(a.optional)
+    return bool(not a.required and a.default is None and not a.generator)
+
+
 def arg_info(name, a):
     return dict(name=name, required=bool(a.required), generated=bool(a.generator), constant=bool(a.constant),
-                ignored=bool(a.ignored), ty=type_ast(a.type))
+                ignored=bool(a.ignored), ty=type_ast(a.type), optional=is_optional(a), checker=bool(a.checker))
 
 
 def class_table():
@@ -110,6 +123,8 @@ def annotation(a):
         return CLASSES[a["c"]]
     if k == "opt":
         return Optional[annotation(a["t"])]
+    if k == "union":
+        return Union[tuple(annotation(x) for x in a["ts"])]
     raise ValueError(k)
 
 
@@ -214,8 +229,15 @@ def run_assign(case):
     objs = Objects()
     out = dict(declared=True)
     try:
-        ns = {"__annotations__": {"x": Param[annotation(case["annot"])]}, "__module__": dyn.__name__,
-              "__qualname__": name}
+        hint = Param[annotation(case["annot"])]
+        ck = case.get("checker")
+        if ck is not None:
+            # x: Annotated[T, Choices([...])] / Annotated[T, NonEmpty()]
+            checker = NonEmpty() if ck["k"] == "nonempty" else Choices([build(x, objs) for x in ck["choices"]])
+            hint = Annotated[annotation(case["annot"]), checker]
+        ns = {"__annotations__": {"x": hint}, "__module__": dyn.__name__, "__qualname__": name}
+        if case.get("bare_field"):
+            ns["x"] = field()            # neither default nor default_factory
         if case.get("default") is not None:
             ns["x"] = build(case["default"], objs)
             # the default as Python built it (a dict literal merges keys that are equal: {True: a, 1: b})
@@ -223,7 +245,7 @@ def run_assign(case):
         cls = type(name, (Config,), ns)
         setattr(dyn, name, cls)
         arg = cls.__getxpmtype__().arguments["x"]
-        out.update(required=bool(arg.required), ty=type_ast(arg.type))
+        out.update(required=bool(arg.required), ty=type_ast(arg.type), has_checker=bool(arg.checker))
     except Exception as e:  # the class cannot be used at all
         return dict(declared=False, exc=type(e).__name__, **({"default_input": out["default_input"]} if "default_input" in out else {}))
     value = build(case["v"], objs)
@@ -274,21 +296,57 @@ def has_obj(v):
     return False
 
 
+def remap_loaded(nodes, objs, i, loaded):
+    """the loaded copy of node i and, in parallel with the description of the case, of everything below it"""
+    objs.by_id[i] = loaded
+    objs.ids[id(loaded)] = i
+
+    def walk(v, real):
+        if v["k"] == "obj":
+            if objs.by_id.get(v["o"]) is not real:
+                remap_loaded(nodes, objs, v["o"], real)
+        elif v["k"] == "list":
+            for x, y in zip(v["l"], real):
+                walk(x, y)
+        elif v["k"] == "dict":
+            for (ka, x) in v["ps"]:
+                walk(x, real[build(ka, objs)])
+
+    n = nodes[i]
+    for k, v in n["fields"].items():
+        if has_obj(v):
+            walk(v, loaded.__xpm__.values[k])
+    for j, real in zip(n.get("pre", []), loaded.__xpm__.pre_tasks):
+        if objs.by_id.get(j) is not real:
+            remap_loaded(nodes, objs, j, real)
+
+
 def run_graph(case, xp):
-    """case: nodes [{c, fields {name: value}, pre [ids]}],
-    ops [{op: submit|validate, root, init [ids]} | {op: set, node, field, value}]"""
+    """case: nodes [{c, fields {name: value}, pre [ids]}], loaded {roots [ids], region [ids]} (configurations that
+    are saved and LOADED back - from_state_dict - before they are given to the others: sealed, never validated),
+    ops [{op: submit|validate|instance, root, init [ids]} | {op: set, node, field, value}]"""
     objs = Objects()
     nodes = case["nodes"]
+    region = set((case.get("loaded") or {}).get("region", []))
     for i, n in enumerate(nodes):
         kw = {k: build(v, objs) for k, v in n["fields"].items() if not has_obj(v)}
         objs.add(i, CLASSES[n["c"]](**kw))
-    for i, n in enumerate(nodes):
-        for k, v in n["fields"].items():
-            if has_obj(v):
-                setattr(objs.by_id[i], k, build(v, objs))
-    for i, n in enumerate(nodes):
-        if n.get("pre"):
-            objs.by_id[i].add_pretasks(*[objs.by_id[j] for j in n["pre"]])
+
+    def wire(which):
+        for i, n in enumerate(nodes):
+            if which(i):
+                for k, v in n["fields"].items():
+                    if has_obj(v):
+                        setattr(objs.by_id[i], k, build(v, objs))
+        for i, n in enumerate(nodes):
+            if which(i) and n.get("pre"):
+                objs.by_id[i].add_pretasks(*[objs.by_id[j] for j in n["pre"]])
+
+    wire(lambda i: i in region)
+    for r in (case.get("loaded") or {}).get("roots", []):
+        state = state_dict(SerializationContext(), objs.by_id[r])
+        remap_loaded(nodes, objs, r, from_state_dict(json.loads(json.dumps(state))))
+    wire(lambda i: i not in region)
     answers = []
     for op in case["ops"]:
         root = objs.by_id[op["node" if op["op"] == "set" else "root"]]
@@ -301,19 +359,50 @@ def run_graph(case, xp):
                 # an assignment in the middle of the history (e.g. a task that went through its own
                 # submit, given as a parameter of another one)
                 setattr(root, op["field"], build(op["value"], objs))
+            elif op["op"] == "instance":
+                # validates, seals and builds the instance (before the task is submitted)
+                root.instance(DirectoryContext(Path(os.environ.get("C15_SCRATCH", tempfile.gettempdir())) / "instance"))
             else:
                 root.__xpm__.validate()
             a["raised"] = False
         except Exception as e:
             a.update(raised=True, exc=type(e).__name__)
         a["delta"] = len(xp.scheduler.jobs) - before
-        # what the call left on its object: a job (the "was submitted" flag), its init tasks
+        # what the call left on its object: a job (the "was submitted" flag), its init tasks, the sealed flag
         a["job"] = root.__xpm__.job is not None
         a["init"] = [objs.ids.get(id(t), -1) for t in root.__xpm__.init_tasks]
+        a["sealed"] = bool(root.__xpm__._sealed)
         a["registered"] = bool(op["op"] != "set" and root.__xpm__.job is not None
                                and any(j is root.__xpm__.job for j in xp.scheduler.jobs.values()))
         answers.append(a)
     return answers
+
+
+# ------------------------------------------------------------------ directed cases without a Coq model
+def run_special(case):
+    """Union-typed parameters (outside the modelled type expressions): x: Param[Union[...]] (= default)"""
+    COUNTER[0] += 1
+    name = f"S{os.getpid()}_{COUNTER[0]}"
+    objs = Objects()
+    try:
+        ns = {"__annotations__": {"x": Param[annotation(case["annot"])]}, "__module__": dyn.__name__, "__qualname__": name}
+        if case.get("default") is not None:
+            ns["x"] = build(case["default"], objs)
+        cls = type(name, (Config,), ns)
+        setattr(dyn, name, cls)
+        cls.__getxpmtype__().arguments["x"]
+        o = cls()
+    except Exception as e:
+        return dict(declared=False, exc=type(e).__name__)
+    value = build(case["v"], objs)
+    out = dict(declared=True, input=canon(value, objs), before=stored(o, objs))
+    try:
+        o.x = value
+        out["raised"] = False
+    except Exception as e:
+        out.update(raised=True, exc=type(e).__name__)
+    out["after"] = stored(o, objs)
+    return out
 
 
 def main():
@@ -332,6 +421,7 @@ def main():
                     raise
             for case in payload.get("graphs", []):
                 res["graphs"].append(run_graph(case, xp))
+            res["special"] = [run_special(case) for case in payload.get("special", [])]
         res["experiment_exit"] = "ok"
     except Exception as e:  # e.g. FailedExperiment; the answers are already recorded
         res["experiment_exit"] = type(e).__name__ + ": " + str(e)[:200]
